@@ -1,17 +1,44 @@
 #!/venv/bin/python
 """Re-evaluate every seeded change under /verif/seeded against the current /repo and the current checks.
-usage: seed_rerun.py [name ...]   (default: all)"""
-import json, os, subprocess, sys
+usage: seed_rerun.py [-j N] [name ...]   (default: all, 4 at a time)"""
+import concurrent.futures
+import json
+import os
+import subprocess
+import sys
+
 VERIF = os.path.dirname(os.path.dirname(os.path.abspath(__file__)))
 root = os.path.join(VERIF, "seeded")
-names = sys.argv[1:] or sorted(d for d in os.listdir(root) if os.path.isfile(os.path.join(root, d, "meta.json")))
+argv = sys.argv[1:]
+jobs = 4
+if argv[:1] == ["-j"]:
+    jobs = int(argv[1])
+    argv = argv[2:]
+names = argv or sorted(d for d in os.listdir(root) if os.path.isfile(os.path.join(root, d, "meta.json")))
 needs_file = os.path.join(root, "needs.json")
 needs = json.load(open(needs_file)) if os.path.exists(needs_file) else {}
-os.environ["SEED_BASELINE"] = "/tmp/seed_baseline.json"
-if os.path.exists(os.environ["SEED_BASELINE"]):
-    os.remove(os.environ["SEED_BASELINE"])
-for n in names:
+base = "/tmp/seed_baseline.json"
+if os.path.exists(base):
+    os.remove(base)
+# compute the baseline (findings on the unchanged tree) once
+out = subprocess.run(["/venv/bin/python", "-m", "sa", "all"], cwd=VERIF, capture_output=True, text=True, env={**os.environ, "SA_EVIDENCE_DIR": "/tmp/seed_evidence", "SA_REPLAY_DIR": "/tmp/seed_replay"}).stdout
+json.dump(sorted({ln.split("] ", 1)[1][:300] for ln in out.splitlines() if ln.startswith("  claripy/") and ": [" in ln and "] " in ln}), open(base, "w"))
+os.environ["SEED_BASELINE"] = base
+
+
+def one(n):
     d = os.path.join(root, n)
     meta = json.load(open(os.path.join(d, "meta.json")))
     need = needs.get(n) or meta.get("needs", "")
-    subprocess.run(["/venv/bin/python", os.path.join(VERIF, "tools", "seed_eval.py"), meta["property"], n, os.path.join(d, "patch.diff"), os.path.join(d, "demo.py"), need])
+    p = subprocess.run(
+        ["/venv/bin/python", os.path.join(VERIF, "tools", "seed_eval.py"), meta["property"], n, os.path.join(d, "patch.diff"), os.path.join(d, "demo.py"), need],
+        capture_output=True,
+        text=True,
+    )
+    return (p.stdout + p.stderr).strip().splitlines()[-2:]
+
+
+with concurrent.futures.ThreadPoolExecutor(jobs) as ex:
+    for lines in ex.map(one, names):
+        for ln in lines:
+            print(ln[:260], flush=True)
